@@ -28,7 +28,7 @@ def _metas(inc):
     return RegionMeta(md), RegionVisual({'color': 'red', 'linewidth': 2})
 
 
-def build_pixel(kind, m, inc, pre=''):
+def build_pixel(kind, m, inc, pre='', aunit='deg'):
     import regions as R
     from regions import PixCoord
     meta, vis = _metas(inc)
@@ -38,7 +38,7 @@ def build_pixel(kind, m, inc, pre=''):
         return R.CirclePixelRegion(PixCoord(cx, cy), m.pos(pre + 'r'), meta=meta, visual=vis)
     if kind in ('ellipse', 'rectangle'):
         cls = R.EllipsePixelRegion if kind == 'ellipse' else R.RectanglePixelRegion
-        return cls(PixCoord(cx, cy), m.pos(pre + 'w'), m.pos(pre + 'h'), angle=m.angle(pre + 'theta', 'deg'), meta=meta, visual=vis)
+        return cls(PixCoord(cx, cy), m.pos(pre + 'w'), m.pos(pre + 'h'), angle=m.angle(pre + 'theta', aunit), meta=meta, visual=vis)
     if kind == 'polygon':
         return R.PolygonPixelRegion(PixCoord(np.array([cx, cx + m.real(pre + 'ex1'), cx + m.real(pre + 'ex2')], dtype=dt),
                                              np.array([cy, cy + m.real(pre + 'ey1'), cy + m.real(pre + 'ey2')], dtype=dt)),
@@ -95,10 +95,10 @@ def _wcs_ready(m, w):
     return w
 
 
-def h_roundtrip_pix(kind, inc, m):
+def h_roundtrip_pix(kind, inc, m, aunit='deg'):
     """pixel -> sky -> pixel returns the same class, geometry, meta and visual"""
     _shims(m)
-    reg = build_pixel(kind, m, inc)
+    reg = build_pixel(kind, m, inc, aunit=aunit)
     w = OpaqueWCS(m)
     before = _numeric_params(reg)
     sky = reg.to_sky(w)
@@ -122,15 +122,22 @@ def h_roundtrip_pix(kind, inc, m):
         m.require('text rotation is restored by the round trip', chk.Eq(back.visual['rotation'], reg.visual['rotation']))
         m.require('text content is kept', sky.text == 'hello' and back.text == 'hello')
     after = _numeric_params(reg)
-    m.require('the input region is untouched', all((a is b) or (not symx.is_sym(a) and not symx.is_sym(b) and a == b)
-                                                   for (_, a), (_, b) in zip(before, after)))
+    def same(a, b):
+        if a is b:
+            return True
+        if isinstance(a, symx.SymReal) and isinstance(b, symx.SymReal):
+            return z3.simplify(a.t).eq(z3.simplify(b.t))
+        if symx.is_sym(a) or symx.is_sym(b):
+            return False
+        return a == b
+    m.require('the input region is untouched', all(same(a, b) for (_, a), (_, b) in zip(before, after)))
 
 
-def h_sky_contains(kind, inc, m):
+def h_sky_contains(kind, inc, m, aunit='deg'):
     """a sky region answers membership exactly like its pixel image at the converted position"""
     from regions import PixCoord
     _shims(m)
-    reg = build_pixel(kind, m, inc)
+    reg = build_pixel(kind, m, inc, aunit=aunit)
     w = OpaqueWCS(m)
     sky = reg.to_sky(w)
     qx, qy = m.real('qx'), m.real('qy')
@@ -196,6 +203,10 @@ def harnesses(tier):
             hs.append((f'pix-sky-pix/{k}/include={iname}', P(h_roundtrip_pix, k, inc)))
             if k not in ('compound',) or True:
                 hs.append((f'sky-contains/{k}/include={iname}', P(h_sky_contains, k, inc)))
+    for k in ('ellipse', 'rectangle'):
+        for au in ('rad', 'arcmin'):
+            hs.append((f'pix-sky-pix/{k}/angle-unit={au}', P(h_roundtrip_pix, k, None, aunit=au)))
+            hs.append((f'sky-contains/{k}/angle-unit={au}', P(h_sky_contains, k, None, aunit=au)))
     for k in ('circle', 'ellipse', 'rectangle', 'annulus-circle', 'annulus-ellipse', 'annulus-rectangle'):
         for iname, inc in INCS[:2]:
             hs.append((f'sky-pix-sky/{k}/include={iname}', P(h_roundtrip_sky, k, inc)))
